@@ -484,6 +484,17 @@ func lcpOracle(chain map[int64]oblock, op string, m map[string]string, out strin
 		return []core.Finding{fnd("stateprovider.returns-answer-not-from-the-chain", "with lying servers (%s) the provider returned %s", op, out)}
 	}
 	switch strings.Fields(op)[0] {
+	case "l.hand":
+		if !strings.HasPrefix(out, "state=") {
+			return nil
+		}
+		goesOn := kvs["switched"] == "1" || kvs["state"] != "empty"
+		if goesOn && ok0 && kvs["seen"] != fmt.Sprintf("%d:%s", h, b0.bh) {
+			fs = append(fs, fnd("node.startStateSync.goes-on-without-stored-seen-commit", "hand-over with seen=%s boot=%s switch=%s: the node goes on from the restored state (%s) although the light-verified commit of height %d is not in the block store: consensus cannot reconstruct its last commit and the node will not state sync again", m["seen"], m["boot"], m["switch"], out, h))
+		}
+		if kvs["switched"] == "1" && kvs["state"] != fmt.Sprintf("lbh:%d", h) {
+			fs = append(fs, fnd("node.startStateSync.switches-without-stored-state", "hand-over with seen=%s boot=%s switch=%s: switched to block sync but the state store holds %s", m["seen"], m["boot"], m["switch"], kvs["state"]))
+		}
 	case "l.sync":
 		if !strings.HasPrefix(out, "apphash=") {
 			return nil
@@ -680,7 +691,7 @@ func oracle(c core.Case, out []string) []core.Finding {
 			if out[i] == "ok" {
 				lchainO = parseBlocks(m["blocks"])
 			}
-		case "l.sync", "l.boot":
+		case "l.sync", "l.boot", "l.hand":
 			if lchainO != nil {
 				fs = append(fs, lcpOracle(lchainO, op, m, out[i])...)
 			}
